@@ -46,18 +46,16 @@ def run(v):
         ks = [k for k, f in enumerate(d["named"]) if f["kind"] == "adj" and f["head"]["kind"] == "cmd"]
         return all(k == len(d["named"]) - 1 for k in ks)
     gfam += [d for d in D.acmd_family(SEED + 16, 12 if q else 60, maxlen=4 if q else 5, budget=4000 if q else 50000) if cmd_last(d)]
-    gfam += D.acmd_with_alt_family(SEED + 18, 6 if q else 18, maxlen=4 if q else 5, budget=4000 if q else 50000)
+    gfam_alt = D.acmd_with_alt_family(SEED + 18, 6 if q else 18, maxlen=4 if q else 5, budget=6000 if q else 50000)
     for d in gfam:
         d["alpha"]["extras"] = ["help"]
         D.galpha_trim(d, 4000 if q else 50000)
         d["alpha"]["extras"] = ["help"]
+    gfam += gfam_alt
     def gsig(m):
-        s = cmdline_sig.signature(m)
-        d = m.get("def_full") or {}
-        acmd = isinstance(d, dict) and any(f.get("kind") == "adj" and f["head"]["kind"] == "cmd" for f in d.get("named", []))
-        if acmd and s.get("expect") == "stdout:help" and s.get("got") == "stderr":
+        if cmdline_sig.is_f16(m):
             return {"rule": "help_hidden_by_failing_adjacent_command"}
-        return s
+        return cmdline_sig.signature(m)
     gcov = run_cmdline_property(v, gfam, None, replay_cfg="MC_GroupLine_replay.cfg", module="MC_GroupLine",
                                 signature=gsig, trace_module="GroupLineTrace", name="C10g")
     cov = merge_cov(cov, gcov, "groupline")
